@@ -76,10 +76,11 @@ class Script:
     def __call__(self, limit):
         if self.i < len(self.sizes):
             g = self.sizes[self.i]
-            self.i += 1
-            if g > limit:
+            if g > limit:       # the code asked for less than the model's chunk: split it, keep the cut points
                 self.mismatch = f"model chunk {g} exceeds what the code asked for / what remains ({limit})"
+                self.sizes[self.i] = g - limit
                 return limit
+            self.i += 1
             return g
         self.mismatch = "code issued more recv() calls than the model path"
         return limit
@@ -175,5 +176,7 @@ def trace_record(tid, data, kind, rsize, skip, events, full_limit=96):
             for o in (st + 4, st + 5):
                 if o < len(data):
                     stream.append({"o": o, "b": data[o]})
+    # hook events (top/trim/hdr/emit) are coverage observers, not verdicts: TLC sees the interface events only
+    iface = [e for e in events if e["ev"] in ("read", "yield", "stop", "abort", "raise")]
     return {"tid": tid, "kind": mk, "rsize": rsize, "skip": skip, "total": len(data), "stream": stream,
-            "ev": events}
+            "ev": iface}
